@@ -182,7 +182,10 @@ def main(argv):
         for r in range(reps * 2):
             data = gen_stream(rng)
             st, out, err = R.run("remove_invalid_utf8", [], data)
-            recs = py_records(data)
+            # this tool keeps well-formed lines UNCHANGED, a trailing CR included (no CR normalisation)
+            recs = data.split(b"\n")
+            if recs[-1] == b"":
+                recs.pop()
             c.count(("utf8", data), nontrivial=len(recs) > 0, bucket="remove_invalid_utf8/" + ("has-invalid" if any(not is_utf8(l) for l in recs) else "all-valid"))
             want = join([l for l in recs if is_utf8(l)])
             if st != 0 or out != want:
